@@ -100,6 +100,10 @@ def run(chk, facts):
                 found.setdefault(v, set()).add(fn["qual"])
     for v, fns in sorted(found.items()):
         ok = v in allowed
+        if not ok and v and any(not (ch.isalnum() or ch == "_") for ch in v):
+            # no identifier is equal to, starts or ends with, or contains a spelling with a character that identifiers cannot have
+            chk.ob("R-C15-1", f"name:{v}", True, f"`{v}` (in {sorted(fns)[:2]}) has a character no identifier can contain: it cannot coincide with a user-chosen name", None)
+            continue
         chk.ob("R-C15-1", f"name:{v}", ok,
                f"`{v}` is special-cased in {sorted(fns)[:3]}: {allowed[v]}" if ok else
                f"`{v}` is compared with identifiers in {sorted(fns)[:3]} but is not a documented special name: a user who happens to choose it gets a different treatment", None)
